@@ -368,6 +368,7 @@ Section T.
         match goal with |- Rs _ (match ?x with Some _ => _ | None => _ end) => destruct x as [v|] end; [|exact I].
         destruct (str_eqb _ _); [|exact I]. cbn. split; assumption. }
       match goal with |- Rs _ (if ?c then _ else _) => destruct c end; [exact I|].
+      match goal with |- Rs _ (if ?c then _ else _) => destruct c end; [exact I|].
       eapply Rs_bind; [apply Rs_of_res|]. intros [tid t1] _.
       assert (BInv (with_tabs st t1)) as G1 by (eapply BInv_same; [| |exact G]; reflexivity).
       match goal with |- Rs _ (bbind (add_node ?s ?v) _) =>
@@ -388,7 +389,7 @@ Section T.
       assert (forall r, Rs (fun st1 => b_stack st1 = b_stack st /\ b_spans st1 = b_spans st /\ in_tag st1) r -> Rs (J true) r) as K.
       { intros r Hr. eapply Rs_weaken; [exact Hr|]. intros st1 (H1 & H2 & H3). split; [eapply BInv_same; eauto|exact H3]. }
       destruct (str_eqb (ss_text prefix) s_xmlns).
-      + eapply Rs_bind; [unfold parse_attr_value; apply Rs_of_entity|]. intros uri _. apply K. apply builder_prefix_spec. exact Hi.
+      + eapply Rs_bind; [unfold parse_attr_value; apply Rs_of_entity|]. intros uri _. destruct uri; [exact I|]. apply K. apply builder_prefix_spec. exact Hi.
       + destruct (str_eqb (ss_text prefix) [] && str_eqb (ss_text local) s_xmlns).
         * eapply Rs_bind; [unfold parse_attr_value; apply Rs_of_entity|]. intros uri _. apply K. apply builder_prefix_spec. exact Hi.
         * apply K. apply builder_attribute_spec. exact Hi.
